@@ -7,6 +7,7 @@ import (
 	"context"
 	"fmt"
 	"log/slog"
+	"sort"
 	"strings"
 	"time"
 	"unicode/utf8"
@@ -253,6 +254,16 @@ type Tokenizer struct {
 	dialect    keywords.SQLDialect // SQL dialect for dialect-specific keyword recognition
 	logger     *slog.Logger        // Optional structured logger for verbose tracing
 	Comments   []models.Comment    // Comments captured during tokenization
+
+	// Memo of the last offset-to-column conversion: byte offset colIndex on the
+	// line starting at colLineStart is at column colColumn (0 = no memo).
+	// Positions are asked for in increasing order, so the next conversion
+	// resumes here instead of rescanning the line prefix for every token.
+	colLineStart, colIndex, colColumn int
+	// Memo of hasCodeBeforeOnLine: input[wsLineStart:wsIndex] is known to be
+	// whitespace (wsValid false = no memo).
+	wsLineStart, wsIndex int
+	wsValid              bool
 }
 
 // New creates a new Tokenizer with default configuration and keyword support.
@@ -1652,23 +1663,24 @@ func (t *Tokenizer) readPunctuation() (models.Token, error) {
 
 // toSQLPosition converts an internal Position => a models.Location
 func (t *Tokenizer) toSQLPosition(pos Position) models.Location {
-	// Find the line containing pos
+	// Find the line containing pos: the last line start that is <= pos.Index
 	line := 1
 	lineStart := 0
-
-	// Find the line number using lineStarts
-	for i := 0; i < len(t.lineStarts); i++ {
-		if t.lineStarts[i] > pos.Index {
-			break
-		}
-		line = i + 1
-		lineStart = t.lineStarts[i]
+	if n := sort.Search(len(t.lineStarts), func(i int) bool { return t.lineStarts[i] > pos.Index }); n > 0 {
+		line = n
+		lineStart = t.lineStarts[n-1]
 	}
 
-	// Calculate column by counting characters from line start
+	// Calculate column by counting characters from line start, or from the
+	// previous conversion when it lies on the same line at or before pos
 	// Column is 1-based, so we start at 1
 	column := 1
-	for i := lineStart; i < pos.Index && i < len(t.input); i++ {
+	i := lineStart
+	if t.colColumn > 0 && t.colLineStart == lineStart && t.colIndex >= lineStart && t.colIndex <= pos.Index {
+		column = t.colColumn
+		i = t.colIndex
+	}
+	for ; i < pos.Index && i < len(t.input); i++ {
 		if t.input[i] == '\t' {
 			column += 4 // Treat tab as 4 spaces
 		} else {
@@ -1680,6 +1692,7 @@ func (t *Tokenizer) toSQLPosition(pos Position) models.Location {
 	if column < 1 {
 		column = 1
 	}
+	t.colLineStart, t.colIndex, t.colColumn = lineStart, i, column
 
 	return models.Location{
 		Line:   line,
@@ -1727,17 +1740,21 @@ func isIdentifierChar(r rune) bool {
 func (t *Tokenizer) hasCodeBeforeOnLine(idx int) bool {
 	// Find the start of the line containing idx
 	lineStart := 0
-	for i := len(t.lineStarts) - 1; i >= 0; i-- {
-		if t.lineStarts[i] <= idx {
-			lineStart = t.lineStarts[i]
-			break
-		}
+	if n := sort.Search(len(t.lineStarts), func(i int) bool { return t.lineStarts[i] > idx }); n > 0 {
+		lineStart = t.lineStarts[n-1]
 	}
-	// Check for non-whitespace between lineStart and idx
-	for i := lineStart; i < idx && i < len(t.input); i++ {
+	// Check for non-whitespace between lineStart and idx, resuming after the
+	// whitespace already seen on this line
+	i := lineStart
+	if t.wsValid && t.wsLineStart == lineStart && t.wsIndex >= lineStart {
+		i = t.wsIndex
+	}
+	for ; i < idx && i < len(t.input); i++ {
 		if t.input[i] != ' ' && t.input[i] != '\t' && t.input[i] != '\r' {
+			t.wsLineStart, t.wsIndex, t.wsValid = lineStart, i, true
 			return true
 		}
 	}
+	t.wsLineStart, t.wsIndex, t.wsValid = lineStart, i, true
 	return false
 }
